@@ -28,6 +28,9 @@ def run_unit(unit):
         return js.run_hist_unit(unit, ("join", "full_join"))
     if unit[0] == "big":
         return js.run_big_unit(unit, ("join", "full_join"))
+    if unit[0] == "extra":
+        from mc import joinextra
+        return joinextra.run_extra_unit(unit, ("join", "full_join"), all_expects=True)
     kind, nkeys, config, forms, nl, maxr = unit
     agg = Agg()
     h = hashlib.sha256()
@@ -128,6 +131,7 @@ def check(ctx):
     units += [("hist", k, f) for k in ("int", "str") for f in ("name", "column")]
     units += [("hist", "int", f, "recycle") for f in ("name", "column")]
     units += [("big", p) for p in range(4)]
+    units += [("extra", f) for f in ("skew", "args", "dupnames", "twice", "self", "expectstr")]
     agg = hashseeds.run(ctx, "props.c10", units)
     agg.notes["bound"] = "see joinspace.plan_units"
     agg.notes["exhaustive"] = True
@@ -138,8 +142,14 @@ def coverage_goals(ctx, agg):
     return [k for k in ("join-agree-nontrivial", "full_join-agree-nontrivial", "hist-agree") if agg.outcomes.get(k, 0) < 100]
 
 
+_FAMILY_UNITS = {'skewed sizes': 'skew', 'caller-owned key lists': 'args', 'repeated column name': 'dupnames', 'two joins on the same table objects': 'twice', 'self-join': 'self', 'expect string built at run time': 'expectstr'}
+
+
 def replay(rec):
     case = rec.get("case") or {}
+    if case.get("family") in _FAMILY_UNITS:          # a designated family (mc/joinextra.py): re-run the family, compare signatures
+        from mc import joinextra
+        return set(joinextra.run_extra_unit(("extra", _FAMILY_UNITS[case["family"]]), ("join", "full_join"), all_expects=True).viol)
     if "left_keys" not in case or case.get("kind") == "date" or case.get("method") not in ("join", "full_join"):
         return None
     agg = Agg()
